@@ -470,6 +470,7 @@ func checkC12(e *env) {
 		if len(tables) != 1 {
 			r.violation(Violation{Oracle: "source-table-info", Op: desc, Detail: fmt.Sprintf("%d tables found", len(tables))})
 			source.Close()
+			unmark()
 			continue
 		}
 		source.Table = tables[0]
